@@ -140,10 +140,23 @@ class _Fork(Exception):
     pass
 
 
-def run_one(d, order=None, cons_order=None, session_order=None, shift=0, fork_at=None, peek=False):
+def run_one(d, order=None, cons_order=None, session_order=None, shift=0, fork_at=None, peek=False, rerun=False):
     watch = TieWatch(unint=bool(d["scheduler"].get("unint")))
     sch = build.build_scheduler(d, sort_wrapper=watch)
-    sim, evs = build.build_sim(d, scheduler=sch, order=order, cons_order=cons_order, session_order=session_order, shift=shift)
+    evs_again = None
+    if rerun:
+        # the study is repeated with the SAME EV objects after their public reset() (fresh network, queue, scheduler and simulator):
+        # what the second run produces is what is compared
+        sim0, evs_again = build.build_sim(d)
+        with warnings.catch_warnings():
+            warnings.simplefilter("ignore")
+            try:
+                sim0.run()
+            except Exception:
+                pass
+        for e_ in evs_again:
+            e_.reset()
+    sim, evs = build.build_sim(d, scheduler=sch, order=order, cons_order=cons_order, session_order=session_order, shift=shift, evs=evs_again)
     if peek:
         # a read-only look through the scheduler's own interface before run() (logging the initial state): equal inputs still
         with warnings.catch_warnings():
@@ -309,11 +322,13 @@ def run_case(case, obs):
     if kind != "sorted" or not d["scheduler"].get("est"):
         rels.append(("fork", {"fork_at": rng.choice([1, 2, 3, 5])}, False))
     rels.append(("peek", {"peek": True}, True))
+    if not d.get("noisy") and case["pseed"] % 3 == 0:
+        rels.append(("rerun", {"rerun": True}, True))
     tie = base["tie"]
     for name, kw, exact in rels:
         alt = run_one(d, **kw)
         tie = tie or alt["tie"]
-        if kind == "sorted" and tie and name not in ("rebuild", "shift", "fork", "peek"):
+        if kind == "sorted" and tie and name not in ("rebuild", "shift", "fork", "peek", "rerun"):
             obs.ev("tie_dependent_not_judged")
             obs.boundary += 1
             continue
@@ -324,7 +339,7 @@ def run_case(case, obs):
         if alt["df_bad"]:
             obs.violate("as_df_accessor_mislabelled", f"{name} {kw}: " + alt["df_bad"], scenario=d, relation=name, params=kw)
         diff = compare(base, alt, exact=exact, shift=kw.get("shift", 0))
-        ident = all(list(v) == list(range(len(v))) for kk, v in kw.items() if kk not in ("shift", "fork_at", "peek"))
+        ident = all(list(v) == list(range(len(v))) for kk, v in kw.items() if kk not in ("shift", "fork_at", "peek", "rerun"))
         if (name == "shift") or (not ident and n >= 2 and (m >= 1 or len({s["voltage"] for s in net["stations"]}) > 1)):
             obs.nontrivial([obs.case_hash, name])
         if diff is not None:
